@@ -171,3 +171,40 @@ func TestTableObjectFieldNames(t *testing.T) {
 	pk.Exhaustive("table-object-field-names")
 	col.Done(t)
 }
+
+// `{ ? }.keys` and `{ ? }.get` speak about the same keys: every key the object hands out reaches a value of that
+// object, however the object was built (JSON documents with keys that are not in normal form, escapes, the empty key).
+func TestTableOwnKeysReach(t *testing.T) {
+	pk.SkipIfReplay(t)
+	col := pk.NewCollector()
+	docs := []struct {
+		name, json string
+		n          int
+	}{
+		{"decomposed-key", `{"cafe\u0301": 1, "b": 2}`, 2},
+		{"hangul-jamo-key", `{"\u1100\u1161": 1}`, 1},
+		{"empty-and-spaced-keys", `{"": 1, " ": 2, "a b": 3}`, 3},
+		{"escaped-keys", `{"q\"uote": 1, "back\\slash": 2, "tab\t": 3, "nl\n": 4}`, 4},
+		{"member-like-keys", `{"keys": 1, "get": 2, "set": 3, "to_json": 4}`, 4},
+		{"nested", `{"o\u0308uter": {"cafe\u0301": 1}}`, 1},
+	}
+	for k, d := range docs {
+		if !pk.Mine(k) {
+			continue
+		}
+		body := fmt.Sprintf("let o = %s.parse_json() as { ? };\n    let ks = o.keys();\n    println(ks.len());\n    for key in ks { println(o.get(key).is_some(), o.get(key + \"__no\").is_some()); }\n    o.set(ks[0], 99);\n    println(o.keys().len(), o.get(ks[0]).unwrap() as int);", hs.QuoteStr(d.json))
+		var writes []string
+		writes = append(writes, fmt.Sprintf("%d\n", d.n))
+		for i := 0; i < d.n; i++ {
+			writes = append(writes, "true false\n")
+		}
+		writes = append(writes, fmt.Sprintf("%d 99\n", d.n))
+		c := px.ProgCase{Modules: map[string]string{"main": "fn main() {\n    " + body + "\n}\n"}, Entry: "main", Limits: sb.DefaultLimits(),
+			Note: "own keys reach their values: " + d.name, Expect: &px.Exp{Outcome: hs.Outcome{Class: "ok"}, Writes: writes}}
+		pk.Eval()
+		pk.NonTrivial(c.Note, map[string]any{"doc": d.name})
+		col.Report(c, checkMutation(c))
+	}
+	pk.Exhaustive("table-own-keys-reach")
+	col.Done(t)
+}
